@@ -121,6 +121,43 @@ func c10HABody(rc *RunCtx) {
 		}
 		return nil
 	}
+	// a lagging follower: a barrier over the same storage, unsealed now, that
+	// walks the upgrade path only when told to (a standby whose process was
+	// stalled). It polls right after every rotation - and, in step 7, a drawn
+	// time later that is still inside the grace period of the rotation it has
+	// not seen yet: an upgrade path lives for the grace period from ITS creation.
+	follower := barrier.NewAESGCMBarrier(coreConfig(disk, opts).Physical, namespace.RootNamespace)
+	{
+		_, _, rk := barrier.VerifTerms(vault.VerifBarrier(a.Core))
+		if err := follower.Unseal(namespace.RootContext(context.Background()), rk); err != nil {
+			panic(fmt.Sprint("follower unseal: ", err))
+		}
+	}
+	followerPoll := func() {
+		for i := 0; i < 20; i++ {
+			did, _, err := follower.CheckUpgrade(namespace.RootContext(context.Background()))
+			if err != nil || !did {
+				return
+			}
+		}
+	}
+	followerSame := func(where string, detail ...string) bool {
+		act := active()
+		if act == nil {
+			return true
+		}
+		ab := vault.VerifBarrier(act.h.Core)
+		at, aa, _ := barrier.VerifTerms(ab)
+		sort.Slice(at, func(i, j int) bool { return at[i] < at[j] })
+		bt, ba, _ := barrier.VerifTerms(follower)
+		sort.Slice(bt, func(i, j int) bool { return bt[i] < bt[j] })
+		if fmt.Sprint(at) != fmt.Sprint(bt) || aa != ba {
+			viol("standby-keyring-differs", map[string]any{"level": "ha", "where": where}, "%s%v: a follower that polled the upgrade path inside the grace period has terms %v (active term %d), the active node %s has terms %v (active term %d)", where, detail, bt, ba, act.name, at, aa)
+			return false
+		}
+		s.Probe("lagging_follower_keyring_equal")
+		return true
+	}
 	data := map[string]string{}
 	nw := 0
 	write := func() bool {
@@ -193,7 +230,7 @@ func c10HABody(rc *RunCtx) {
 			viol("no-active-node", nil, "no node is active")
 			return
 		}
-		switch tp.Pick(7) {
+		switch tp.Pick(8) {
 		case 0:
 			hist = append(hist, "write")
 			if !write() {
@@ -208,8 +245,9 @@ func c10HABody(rc *RunCtx) {
 			if !write() {
 				return
 			}
+			followerPoll()
 			time.Sleep(25 * time.Second) // > keyRotateCheckInterval
-			if !sameKeyring("after sys/rotate + check interval") {
+			if !sameKeyring("after sys/rotate + check interval") || !followerSame("right after sys/rotate") {
 				return
 			}
 		case 2: // root key rotation
@@ -333,6 +371,59 @@ func c10HABody(rc *RunCtx) {
 			}
 			sb.h = x
 			s.Faults["crash"]++
+		case 7: // a rotation by a freshly elected leader, seen by the lagging follower late but inside the grace period
+			var other *haNode
+			for _, nd := range nodes {
+				if nd != act && !nd.h.Core.Sealed() {
+					other = nd
+				}
+			}
+			if other == nil {
+				continue
+			}
+			if tp.Pick(2) == 0 { // the old leader leaves an upgrade path of its own behind
+				if _, err := act.h.RootWrite("sys/rotate", nil); err != nil {
+					continue
+				}
+				followerPoll()
+				time.Sleep(time.Duration(tp.Range(1, 30)) * time.Second)
+			}
+			sdReq := &logical.Request{ID: "stepdown", Operation: logical.UpdateOperation, Path: "sys/step-down", ClientToken: act.h.Root, Connection: &logical.Connection{RemoteAddr: "127.0.0.1"}}
+			if err := act.h.Core.StepDown(namespace.RootContext(context.Background()), sdReq); err != nil {
+				continue
+			}
+			s.Faults["failover"]++
+			var next *haNode
+			for w := 0; w < 60 && next == nil; w++ {
+				time.Sleep(time.Second)
+				if x := active(); x != nil && x != act {
+					next = x
+				}
+			}
+			if next == nil {
+				time.Sleep(30 * time.Second)
+				if next = active(); next == nil {
+					viol("no-active-node", nil, "no node became active within 90 s of a step-down")
+					return
+				}
+			}
+			d1 := time.Duration(tp.Range(2, 100)) * time.Second
+			time.Sleep(d1)
+			if _, err := next.h.RootWrite("sys/rotate", nil); err != nil {
+				viol("valid-operation-refused", map[string]any{"op": "rotate", "level": "ha"}, "sys/rotate on %s failed: %v", next.name, err)
+				return
+			}
+			d2 := time.Duration(tp.Range(20, 105)) * time.Second // the grace period is 2 minutes
+			time.Sleep(d2)
+			hist = append(hist, fmt.Sprintf("step-down %s -> %s, +%s sys/rotate@%s, +%s the lagging follower polls", act.name, next.name, d1, next.name, d2))
+			followerPoll()
+			if !followerSame("late poll inside the grace period", fmt.Sprintf("%s after a rotation made %s after %s took over", d2, d1, next.name)) {
+				return
+			}
+			s.Probe("late_poll_inside_grace_period")
+			if !write() {
+				return
+			}
 		case 6: // every node sealed, then unsealed again: retired shares must not work, current ones must
 			hist = append(hist, "seal all + unseal")
 			for _, nd := range nodes {
